@@ -103,6 +103,16 @@ CHECKS = {
         "and each libpass-made hash must also be recognised by the classic hasher of its format.",
    note="Trusted: TLC, LibpassCtx.tla. bcrypt passwords <= 72 bytes; Argon2Hasher is not importable on this host (no argon2 backend).",
    technique="TLA+ spec (LibpassCtx.tla) model-checked with TLC + spec-to-implementation behaviour replay across both APIs"),
+ "C06": dict(cat=MC, design="DESIGN.md §3 C06",
+   text="Rand.tla gives the radix-generic extraction formulas (bytes from one getrandbits request, symbols from one randrange request); TLC proves them "
+        "bijective (balanced) with pairwise independent positions at reduced radix, checks the shortest-length-for-entropy rule (limb arithmetic) and "
+        "that bcrypt's salt repair stays balanced; with passlib's shared random source replaced by a scripted one, every request and output of the "
+        "helpers and of all consumers (salts of every salted hasher parsed back from hash(), TOTP.new, generate_secret, genword/genphrase, libpass "
+        "salts) is recorded for exhaustive small spaces, boundary patterns and random values up to 64 symbols and validated against the spec by "
+        "Trace_Rand; every salted scheme refuses a salt pinned through CryptContext.",
+   note="Trusted: TLC, Rand.tla; the random source itself is assumed uniform (no statistics on live output). Source values are handed to TLC in the "
+        "helper's own radix (the harness converts int <-> digits).",
+   technique="TLA+ spec (Rand.tla) model-checked with TLC + trace validation of recorded calls under a scripted random source"),
 }
 PENDING = {}
 props = [json.loads(l) for l in open(os.path.join(HERE, "properties.jsonl"))]
